@@ -83,7 +83,23 @@ def density_case(ctx, rng, idx):
         y = ybar * (1 + full[0] * rng.normal(size=n))
     else:
         y = ybar + (full[0] + full[1] * ybar) * rng.normal(size=n)
-    form = ['array', 'list', 'int', 'strided'][int(rng.integers(4))]
+    form = ['array', 'list', 'int', 'strided', 'bigint'][
+        int(rng.integers(5))]
+    if form == 'bigint' and (wrapper != 'bare' or n > 40):
+        form = 'array'
+    if form == 'bigint':
+        # counts of the size of cell numbers, integer scale parameters: the
+        # same numbers as int64 (powers of integer arrays wrap around)
+        ybar = np.round(np.exp(rng.uniform(np.log(2e6), np.log(5e9),
+                                           size=n)))
+        full = np.round(rng.uniform(1, 3, size=n_par))
+        if cname == 'LogNormalErrorModel':
+            y = np.round(ybar * np.exp(0.3 * rng.normal(size=n)))
+        elif cname == 'GaussianErrorModel':
+            y = np.round(ybar + full[0] * rng.normal(size=n))
+        else:
+            y = np.round(ybar * (1 + 0.3 * rng.normal(size=n)))
+            y = np.maximum(y, 1.0)
     if form == 'int' and n <= 40:
         # integer-valued data (counts) handed over as int64: the documented
         # density is the same function of the same numbers
@@ -108,8 +124,17 @@ def density_case(ctx, rng, idx):
     p_free = full[free]
     if form == 'list':
         a_p, a_ybar, a_y = list(p_free), list(ybar), list(y)
+    elif form == 'bigint':
+        a_p, a_ybar, a_y = p_free.astype(np.int64), \
+            ybar.astype(np.int64), y.astype(np.int64)
+        if rng.random() < 0.5:
+            a_p, a_ybar, a_y = a_p.tolist(), a_ybar.tolist(), a_y.tolist()
     elif form == 'int':
-        it = [np.int64, np.int32][int(rng.integers(2))]
+        its = [np.int64, np.int32, np.int16, np.int8]
+        if np.all(ybar > 0) and np.all(y > 0):
+            its += [np.uint8, np.uint16]
+        it = its[int(rng.integers(len(its)))]
+        feats_dtype = it.__name__
         a_ybar = ybar.astype(it) if (not int_y or rng.random() < 0.7) \
             else ybar.copy()
         a_y = y.astype(it) if int_y else y.copy()
@@ -128,10 +153,15 @@ def density_case(ctx, rng, idx):
             a.setflags(write=False)
     sens_in = np.asfortranarray(sens) if form == 'strided' else sens.copy()
     sens_in.setflags(write=False)
+    if form == 'list':
+        # array-like: a nested list (one row per time point)
+        sens_in = sens.tolist()
 
     nontrivial = n >= 2 and np.ptp(ybar) > 0
     feats = {'class': cname, 'wrapper': wrapper, 'free': free.tolist(),
              'n': n, 'width': width, 'form': form}
+    if form == 'int':
+        feats['dtype'] = feats_dtype
     ctx.case((cname, wrapper, tuple(free), min(n, 5) if n < 100 else n, width,
               form),
              nontrivial, sample=dict(
@@ -303,6 +333,23 @@ def support_case(ctx, rng, idx):
             ctx.violation('pointwise_sums_to_total',
                           'support_pointwise:%s:%s' % (cname, kind),
                           {'pointwise': pw}, feats)
+    if kind in ('bad_output', 'bad_observation') and pw.shape == (n,):
+        # the pointwise value of a pair is the log-density of that pair:
+        # pairs inside the support keep their finite value
+        ok = (ybar > 0) & (y > 0)
+        ctx.count('support_pointwise_pairs', int(np.sum(ok)))
+        want = np.real(ref(y[ok], ybar[ok], p))
+        if np.any(ok) and not ctx.close(pw[ok], want, rtol=1e-10,
+                                        atol=1e-12):
+            ctx.violation('pointwise_vs_documented_density',
+                          'support_pointwise_inside_pairs:' + cname,
+                          {'pointwise': pw, 'inside the support': ok,
+                           'reference for those': want}, feats)
+        if not np.all(pw[~ok] == -np.inf):
+            ctx.violation('outside_support_scores_minus_inf',
+                          'support_pointwise_outside_pairs:' + cname,
+                          {'pointwise': pw, 'inside the support': ok},
+                          feats)
     if score != -np.inf:
         ctx.violation('outside_support_scores_minus_inf',
                       'support_s1:%s:%s' % (cname, kind),
